@@ -18,7 +18,7 @@ import time
 
 import z3
 
-from .symval import (NR, ArrC, ContractError, DictC, ExcVal, Func, I, ListC, MaybeNone, Method, Module, Obj, Opaque,
+from .symval import (Coll, NR, ArrC, ContractError, DictC, ExcVal, Func, I, ListC, MaybeNone, Method, Module, Obj, Opaque,
                      R, Bo, Ref, SeqC, Sort, State, TStr, Unsupported, fresh, rv)
 from .report import REPO
 
@@ -317,6 +317,8 @@ class Engine:
             st.env[args.vararg.arg] = ()
         for k, v in c.ghost_init.items():
             st.ghost[k] = v(View(st, self)) if callable(v) else v
+        if getattr(c, 'pre_state', None):
+            c.pre_state(st)
         for name, fn in c.requires:
             st.assume(zb(fn(View(st, self))))
         for d in TStr.distinct():
@@ -547,6 +549,25 @@ class Engine:
     def rhs_outcomes(self, node, st):
         if isinstance(node, ast.Call) and not self.is_pure_call(node):
             return self.call_outcomes(node, st)
+        if isinstance(node, ast.ListComp):
+            st.comp_raises = []
+            v = self.ev(node, st)
+            raises = st.comp_raises
+            st.comp_raises = []
+            if not raises:
+                return [(st, 'value', v)]
+            outs = []
+            none_raise = []
+            for k, n_, cond, exc in raises:
+                s2 = st.copy()
+                s2.assume(z3.Exists([k], z3.And(k >= 0, k < n_, cond)))
+                if self.feasible(s2):
+                    outs.append((s2, 'raise', ExcVal(exc)))
+                none_raise.append(z3.ForAll([k], z3.Implies(z3.And(k >= 0, k < n_), z3.Not(cond))))
+            st.assume(z3.And(*none_raise))
+            if self.feasible(st):
+                outs.append((st, 'value', v))
+            return outs
         return [(st, 'value', self.ev(node, st))]
 
     def call_outcomes(self, node, st):
@@ -895,6 +916,13 @@ class Engine:
                 if nm in st.env:
                     st.env[nm] = self.havoc_value(st, st.env[nm], nm)
                 continue
+            if pat.startswith('ghost:'):
+                g = pat[6:]
+                if g in st.ghost and z3.is_expr(st.ghost[g]):
+                    st.ghost[g] = fresh('ghost.' + g, st.ghost[g].sort())
+                elif g in st.ghost and isinstance(st.ghost[g], int):
+                    st.ghost[g] = fresh('ghost.' + g, I)
+                continue
             if pat.startswith('loc:'):
                 for loc in self.frame_locs(st, [pat]):
                     st.locs[loc] = self.havoc_content(st, st.content(Ref(loc)), st.loc_names.get(loc, loc))
@@ -941,6 +969,12 @@ class Engine:
             return MaybeNone(fresh(name + '.isnone', Bo), self.havoc_value(st, v.value, name))
         if v is None or isinstance(v, (str, Obj)):
             return v
+        if isinstance(v, Coll):
+            n = fresh(name + '.size', I)
+            st.assume(n >= 0)
+            return Coll(v.path, n, v.keysort)
+        if isinstance(v, tuple):
+            return v      # ghost descriptions of call results (immutable)
         raise Unsupported('cannot havoc %r (%s)' % (v, name))
 
     def havoc_content(self, st, c, name):
@@ -1008,8 +1042,51 @@ class Engine:
             class _T:
                 pass
             test_fn = lambda s: s.env[idx_name] < hi  # noqa
-            return self.cut_for(n, st, spec, lid, idx_name, test_fn, pre_body, lo)
-        seqv = self.ev(it, st)
+            return self.cut_for(n, st, spec, lid, idx_name, test_fn, pre_body, lo, lambda s: z3.If(hi >= lo, hi, lo))
+        enum = False
+        it2 = it
+        if isinstance(it, ast.Call) and ast.unparse(it.func) == 'enumerate' and len(it.args) == 1:
+            enum, it2 = True, it.args[0]
+        if isinstance(it2, ast.Call) and ast.unparse(it2.func) == 'zip' and not enum:
+            seqs = [self.ev(a, st) for a in it2.args]
+            if all(isinstance(q, Ref) and isinstance(st.content(q), (SeqC, ArrC)) for q in seqs):
+                st.env[idx_name] = z3.IntVal(0)
+
+                def zlen(s):
+                    m = s.content(seqs[0]).n
+                    for q in seqs[1:]:
+                        m = z3.If(s.content(q).n < m, s.content(q).n, m)
+                    return m
+
+                def pre_body(s):
+                    i = s.env[idx_name]
+                    self.assign(n.target, tuple(self.elem(s.content(q), i) for q in seqs), s)
+                test_fn = lambda s: s.env[idx_name] < zlen(s)  # noqa
+                return self.cut_for(n, st, spec, lid, idx_name, test_fn, pre_body, z3.IntVal(0), zlen)
+        seqv = self.ev(it2, st)
+        if isinstance(seqv, Coll):
+            seqv = ('absiter', seqv, 'values')
+        if isinstance(seqv, tuple) and len(seqv) == 3 and seqv[0] == 'absiter':
+            coll, kind = seqv[1], seqv[2]
+            st.env[idx_name] = z3.IntVal(0)
+
+            def pre_body(s):
+                i = s.env[idx_name]
+                elem = Obj(coll.path + '.$e')
+                # one arbitrary element: forget whatever an enclosing iteration knew about '$e'
+                for pth in [p for p in s.heap if p.startswith(elem.path + '.')]:
+                    del s.heap[pth]
+                if kind == 'values':
+                    item = elem
+                elif kind == 'keys':
+                    item = Opaque(fresh('key', (TStr.sort if coll.keysort is None else coll.keysort)))
+                else:
+                    item = (Opaque(fresh('key', (TStr.sort if coll.keysort is None else coll.keysort))), elem)
+                self.assign(n.target, (i, item) if enum else item, s)
+            test_fn = lambda s: s.env[idx_name] < coll.n  # noqa
+            return self.cut_for(n, st, spec, lid, idx_name, test_fn, pre_body, z3.IntVal(0), lambda s: coll.n)
+        if enum:
+            raise Unsupported('enumerate over a non-abstract iterable with an invariant')
         if isinstance(seqv, Ref) and isinstance(st.content(seqv), (SeqC, ArrC)):
             c = st.content(seqv)
             st.env[idx_name] = z3.IntVal(0)
@@ -1019,14 +1096,16 @@ class Engine:
                 i = s.env[idx_name]
                 self.assign(n.target, self.elem(cc, i), s)
             test_fn = lambda s: s.env[idx_name] < s.content(seqv).n  # noqa
-            return self.cut_for(n, st, spec, lid, idx_name, test_fn, pre_body, z3.IntVal(0))
+            return self.cut_for(n, st, spec, lid, idx_name, test_fn, pre_body, z3.IntVal(0), lambda s: s.content(seqv).n)
         raise Unsupported('for-loop #%d over unsupported iterable' % lid)
 
-    def cut_for(self, n, st, spec, lid, idx_name, test_fn, pre_body, lo):
+    def cut_for(self, n, st, spec, lid, idx_name, test_fn, pre_body, lo, hi_fn=None):
         """for-loops over ranges / symbolic sequences as 'while i < n' with the index in the local ``$i<lid>``"""
         frame = list(spec.frame) + [idx_name]
-        spec2 = Loop(inv=list(spec.inv) + [('index-lower-bound', lambda v: v.local(idx_name) >= lo)], frame=frame,
-                     decreases=spec.decreases)
+        bounds = [('index-lower-bound', lambda v: v.local(idx_name) >= lo)]
+        if hi_fn is not None:
+            bounds.append(('index-upper-bound', lambda v: v.local(idx_name) <= hi_fn(v.st)))
+        spec2 = Loop(inv=list(spec.inv) + bounds, frame=frame, decreases=spec.decreases)
         # entry
         for name, fn in spec2.inv:
             self.oblige(st, 'inv-entry:loop%d:%s' % (lid, name), zb(fn(View(st, self))), {'loop': lid})
@@ -1206,7 +1285,10 @@ class Engine:
         """python index (possibly negative literal) -> z3 int"""
         if isinstance(idx, int):
             return (n + idx) if idx < 0 else z3.IntVal(idx)
-        return to_z3(idx)
+        z = to_z3(idx)
+        if z3.is_real(z):
+            z = z3.ToInt(z)       # integer-valued numpy scalar used as an index
+        return z
 
     def project(self, sl):
         """row projection of 2-D history arrays: x[:, j] -> x[j], x[:, None] -> x (one arbitrary device row)"""
@@ -1223,6 +1305,9 @@ class Engine:
             key = self.ev(sl, st)
             if isinstance(key, str):
                 return self.getattr(base[1], key, st)
+            h = self.c.calls.get('__objdict__')
+            if h is not None:
+                return h(self, st, [base[1], key], {}, None)
             raise Unsupported('__dict__ lookup with symbolic key')
         if isinstance(base, NR) and getattr(self.c, 'row_projection', False):
             return base
@@ -1231,8 +1316,21 @@ class Engine:
             mask = None
             if isinstance(iv, tuple) and len(iv) == 2 and iv[0] == 'where-mask':
                 mask = iv[1]
-            elif isinstance(iv, Ref) and isinstance(st.content(iv), ArrC):
-                mask = iv
+            elif isinstance(iv, Ref) and isinstance(st.content(iv), (ArrC, SeqC)):
+                ic = st.content(iv)
+                if isinstance(ic, ArrC) and ic.kind == 'bool':
+                    mask = iv
+                else:
+                    # integer fancy indexing: gather (fresh array)
+                    c = st.content(base)
+                    k = fresh('k', I)
+                    ix = z3.ToInt(ic.vals[k]) if isinstance(ic, ArrC) else (ic.arr[k] if z3.is_int(ic.arr[k]) else z3.ToInt(ic.arr[k]))
+                    if getattr(self.c, 'check_bounds', True):
+                        self.oblige(st, 'index-in-bounds[%s]' % ast.unparse(sl),
+                                    z3.ForAll([k], z3.Implies(z3.And(k >= 0, k < ic.n), z3.And(ix >= 0, ix < c.n))),
+                                    {'kind': 'IndexError'})
+                    return st.new_ref(ArrC(z3.Lambda([k], c.vals[ix]), ic.n,
+                                           None if c.nans is None else z3.Lambda([k], c.nans[ix]), kind=c.kind), 'gather')
             if mask is not None:
                 return ('masked-view', base, mask)
         if isinstance(base, Ref):
@@ -1536,14 +1634,70 @@ class Engine:
                     break
             if parts is not None:
                 return ''.join(parts)
-            return Opaque(fresh('fstr', TStr.sort))
+            # symbolic parts: an uninterpreted function of the formatted values, named by the template
+            tmpl, vals = [], []
+            for v in n.values:
+                if isinstance(v, ast.Constant):
+                    tmpl.append(str(v.value))
+                else:
+                    tmpl.append('{}')
+                    try:
+                        x = self.ev(v.value, st)
+                        vals.append(TStr.lit(x) if isinstance(x, str) else to_z3(x))
+                    except (Unsupported, ContractError):
+                        return Opaque(fresh('fstr', TStr.sort))
+            if not vals:
+                return ''.join(tmpl)
+            f = z3.Function('fstr:' + ''.join(tmpl), *([v.sort() for v in vals] + [TStr.sort]))
+            return Opaque(f(*vals))
         if isinstance(n, ast.Slice):
             return n
         if isinstance(n, ast.ListComp):
-            raise Unsupported('list comprehension (line %d)' % n.lineno)
+            return self.listcomp(n, st)
         if isinstance(n, ast.Lambda):
             return Func('lambda')
         raise Unsupported('expression %s (line %d)' % (type(n).__name__, getattr(n, 'lineno', 0)))
+
+    def listcomp(self, n, st):
+        """[elt for x in it]: concrete iterables are unrolled; symbolic sequences give a pointwise definition
+        (callee handlers used inside must be functional; a handler may register a raise condition for element k)"""
+        if len(n.generators) != 1 or n.generators[0].is_async:
+            raise Unsupported('nested comprehension')
+        g = n.generators[0]
+        seq = self.concrete_iter(g.iter, st)
+        if seq is not None:
+            out = []
+            for item in seq:
+                self.assign(g.target, item, st)
+                keep = True
+                for cond in g.ifs:
+                    t = self.truth(self.ev(cond, st), st)
+                    if not isinstance(t, bool):
+                        raise Unsupported('symbolic filter in comprehension')
+                    keep = keep and t
+                if keep:
+                    out.append(self.ev(n.elt, st))
+            return st.new_ref(ListC(out), 'listcomp')
+        if g.ifs:
+            raise Unsupported('filtered comprehension over a symbolic sequence')
+        sv = self.ev(g.iter, st)
+        if not (isinstance(sv, Ref) and isinstance(st.content(sv), (SeqC, ArrC))):
+            raise Unsupported('comprehension over %r' % (sv,))
+        c = st.content(sv)
+        k = fresh('ck', I)
+        saved_env = dict(st.env)
+        prev = getattr(st, 'in_comprehension', None)
+        st.in_comprehension = (k, c.n)
+        st.comp_raises = getattr(st, 'comp_raises', [])
+        try:
+            self.assign(g.target, self.elem(c, k), st)
+            v = self.ev(n.elt, st)
+        finally:
+            st.in_comprehension = prev
+            st.env = saved_env
+        if isinstance(v, NR):
+            return st.new_ref(SeqC(z3.Lambda([k], v.val), c.n, None if v.nan is False else z3.Lambda([k], v.nanz())), 'listcomp')
+        return st.new_ref(SeqC(z3.Lambda([k], to_z3(v)), c.n, None), 'listcomp')
 
     def ite(self, c, a, b):
         if isinstance(a, NR) or isinstance(b, NR) or isinstance(a, float) or isinstance(b, float):
@@ -1728,7 +1882,7 @@ class Engine:
                 x = ca.at(k) if isinstance(ca, ArrC) else as_real(a)
                 y = cb.at(k) if isinstance(cb, ArrC) else as_real(b)
                 c = self.compare(op, x, y, st)
-                return st.new_ref(ArrC(z3.Lambda([k], z3.If(zb(c), z3.RealVal(1), z3.RealVal(0))), n, None), 'cmp')
+                return st.new_ref(ArrC(z3.Lambda([k], z3.If(zb(c), z3.RealVal(1), z3.RealVal(0))), n, None, kind='bool'), 'cmp')
             raise Unsupported('comparison of arrays/lists')
         x, y = as_real(a), as_real(b)
         core = ZCMP[type(op)](x.val, y.val)
@@ -1819,6 +1973,8 @@ class Engine:
                     raise Unsupported('call to %s has no contract' % key)
                 return h(self, st, args, kwargs, node)
             return self.method_on_value(base, name, args, kwargs, st, node)
+        if isinstance(fnode, ast.Name) and fnode.id == 'isinstance' and fnode.id not in st.env:
+            return _isinstance(self, st, [self.ev(node.args[0], st)], {}, node)
         f = self.ev(fnode, st)
         args, kwargs = self.call_args(node, st)
         return self.call_value(f, args, kwargs, st, node)
@@ -1876,6 +2032,15 @@ class Engine:
         raise Unsupported('call of %r' % (f,))
 
     def method_on_value(self, base, name, args, kwargs, st, node):
+        hook = self.c.calls.get('<value>.' + name)
+        if hook is not None:
+            r = hook(self, st, [base] + list(args), kwargs, node)
+            if r is not NotImplemented:
+                return r
+        if isinstance(base, Coll):
+            if name in ('values', 'items', 'keys'):
+                return ('absiter', base, name)
+            raise Unsupported('method %s on an abstract collection' % name)
         if isinstance(base, Ref):
             c = st.content(base)
             if isinstance(c, SeqC):
@@ -2016,6 +2181,10 @@ def _maxmin(is_max):
 
 def _len(ex, st, args, kw, node):
     v = args[0]
+    if isinstance(v, Coll):
+        return v.n
+    if isinstance(v, tuple) and len(v) == 2 and v[0] == 'absiter':
+        return v[1].n
     if isinstance(v, (tuple, list, str)):
         return len(v)
     if isinstance(v, Ref):
@@ -2037,7 +2206,9 @@ def _isinstance(ex, st, args, kw, node):
     table = {'int': lambda x: is_intlike(x), 'float': lambda x: isinstance(x, (NR, float)),
              'str': lambda x: isinstance(x, str) or (isinstance(x, Opaque) and x.term.sort() == TStr.sort),
              'bool': lambda x: isinstance(x, bool) or (z3.is_expr(x) and z3.is_bool(x)),
-             'list': lambda x: isinstance(x, Ref), 'dict': lambda x: isinstance(x, Ref),
+             'list': lambda x: isinstance(x, Ref) and isinstance(st.content(x), (ListC, SeqC)),
+             'dict': lambda x: isinstance(x, Ref) and isinstance(st.content(x), DictC),
+             'np.ndarray': lambda x: isinstance(x, Ref) and isinstance(st.content(x), ArrC),
              'tuple': lambda x: isinstance(x, tuple)}
     if tname in table:
         return bool(table[tname](v))
